@@ -3,13 +3,14 @@
 
   Theorems about the micro-op model of lib/concurrent (Conc.lean): `prog` = the programs after
   docs/candidate-fixes.patch, tied to the source by Tie/Sync.lean; the `baseline_…` theorems are
-  counterexamples about the programs of the source as it stands (tied by Tie/SyncBaseline.lean).
+  counterexamples about the programs of the source before the repairs (frozen facts: Proofs/ConcBaselineFacts.lean).
   Residual assumptions (stated, not proved): sequential consistency of the micro-op interleaving
   stands in for the Go memory model (justified for data-race-free executions, `atom_accesses_guarded`);
   fairness of sync.RWMutex for waiting threads.  Proofs: Proofs/Conc*.lean.
 -/
 import LispModel.Conc
 import LispModel.Proofs.ConcBaseline
+import LispModel.Proofs.ConcBaselineFacts
 import LispModel.Proofs.ConcAtomProgress
 import LispModel.Proofs.ConcAtomFail
 import LispModel.Proofs.ConcAtomSum
